@@ -468,7 +468,16 @@ macro_rules! cat_ctor_reprs {
             Repr::LookupCtor if $P <= 16 => float_ctor!($probs, $f32, $perfect, |pr|
                 fast: L::<$P>::from_floating_point_probabilities_fast(pr, None),
                 perfect: L::<$P>::from_floating_point_probabilities_perfect(pr))
-                .ok().map(|m| dec_only::<_, usize, $Prob, $P>(m)),
+                .ok().map(|m| {
+                    // decodes through the lookup table, encodes through the encoder view the lookup
+                    // model hands out (`as_contiguous_categorical()`)
+                    let l = Rc::new(m);
+                    let l2 = l.clone();
+                    FnModel {
+                        enc: Some(Box::new(move |s| usize::from_i64(s).and_then(|s| l2.as_contiguous_categorical().left_cumulative_and_probability(s)))),
+                        dec: Some(dec_of::<_, usize, $Prob, $P>(l)),
+                    }
+                }),
             Repr::NonContigLookupCtor if $P <= 16 => float_ctor!($probs, $f32, $perfect, |pr|
                 fast: NL::<$P>::from_symbols_and_floating_point_probabilities_fast(0..n, pr, None),
                 perfect: NL::<$P>::from_symbols_and_floating_point_probabilities_perfect(0..n, pr))
@@ -513,7 +522,16 @@ macro_rules! fixed_ctor_reprs {
         let n = $pr.len();
         match $repr {
             Repr::LookupCtor if $P <= 16 => L::<$P>::from_nonzero_fixed_point_probabilities($pr.iter(), false)
-                .ok().map(|m| dec_only::<_, usize, $Prob, $P>(m)),
+            .ok().map(|m| {
+                    // decodes through the lookup table, encodes through the encoder view the lookup
+                    // model hands out (`as_contiguous_categorical()`)
+                    let l = Rc::new(m);
+                    let l2 = l.clone();
+                    FnModel {
+                        enc: Some(Box::new(move |s| usize::from_i64(s).and_then(|s| l2.as_contiguous_categorical().left_cumulative_and_probability(s)))),
+                        dec: Some(dec_of::<_, usize, $Prob, $P>(l)),
+                    }
+                }),
             Repr::NonContigLookupCtor if $P <= 16 => NL::<$P>::from_symbols_and_nonzero_fixed_point_probabilities(0..n, $pr.iter(), false)
                 .ok().map(|m| dec_only::<_, usize, $Prob, $P>(m)),
             Repr::NonContigLookupBack if $P <= 16 => NL::<$P>::from_symbols_and_nonzero_fixed_point_probabilities(0..n, $pr.iter(), false)
